@@ -382,8 +382,9 @@ func (decomposer *Decomposer) DecomposeAndSplit(levelQ, levelP, nbPi, BaseRNSDec
 
 	ringQ := decomposer.ringQ.AtLevel(levelQ)
 
+	// A key without auxiliary modulus (levelP = -1) on parameters that define one: there is no ring P to work in
 	var ringP *Ring
-	if decomposer.ringP != nil {
+	if decomposer.ringP != nil && levelP > -1 {
 		ringP = decomposer.ringP.AtLevel(levelP)
 	}
 
